@@ -112,6 +112,16 @@ def sis : R String := do
       (s, acc.2.push (join blk))) (s0, #[])
   pure (join ("ok" :: outs.toList))
 
+/-- `glik scale ok1 ok2 ok3 ok4 N d_1…d_N` (`d_i` = Gaussian density of innovation `i`) -> valid |l| l… -/
+def glik : R String := do
+  let scale ← flt
+  let o1 ← bool; let o2 ← bool; let o3 ← bool; let o4 ← bool
+  let n ← nat
+  let ds ← listOf n flt
+  done
+  let (v, l) := gaussianLikelihood scale o1 o2 o3 o4 (fun d : Float => d) ds
+  pure (join (["ok", (if v then "1" else "0"), toString l.length] ++ l.map floatStr))
+
 def handle (op : String) (args : List String) : Option String :=
   match op with
   | "rs" => some ((run rs args).getD "bad-args")
@@ -119,6 +129,7 @@ def handle (op : String) (args : List String) : Option String :=
   | "rsw" => some ((run rsw args).getD "bad-args")
   | "rwp" => some ((run rwp args).getD "bad-args")
   | "sis" => some ((run sis args).getD "bad-args")
+  | "glik" => some ((run glik args).getD "bad-args")
   | _ => none
 
 end BFL.DriverPF
